@@ -816,7 +816,7 @@ func (g *frGen) splitCases(n int) {
 		g.doSplitStream(sf, ms)
 	}
 	for i := 0; i < n/2; i++ {
-		cf := &wire.CryptoFrame{Offset: protocol.ByteCount(g.vv() % (fv8 - 40000)), Data: r.Bytes(int(r.Pick(1, 2, 63, 64, 65, 66, 70, 100, 200, 1452, 3000)))}
+		cf := &wire.CryptoFrame{Offset: protocol.ByteCount(g.vv() % (fv8 - 40000)), Data: r.Bytes(int(r.Pick(1, 2, 63, 64, 65, 66, 70, 100, 200, 700, 1452, 2000)))}
 		L := cf.Length(protocol.Version1)
 		hdr := L - protocol.ByteCount(len(cf.Data))
 		var ms protocol.ByteCount
@@ -850,7 +850,7 @@ func (g *frGen) truncCases(n int) {
 	for i := 0; i < n; i++ {
 		af := g.mkFrame(3+r.Intn(2), -1, 0).(*wire.AckFrame)
 		if r.Chance(2, 3) {
-			af.AckRanges = g.ackRanges(int(r.Pick(2, 5, 20, 64, 70, 100)), g.vv()|1<<uint(r.Range(10, 61)))
+			af.AckRanges = g.ackRanges(int(r.Pick(2, 5, 20, 40, 64, 70)), g.vv()|1<<uint(r.Range(10, 61)))
 		}
 		one := &wire.AckFrame{AckRanges: af.AckRanges[:1], DelayTime: af.DelayTime, ECT0: af.ECT0, ECT1: af.ECT1, ECNCE: af.ECNCE}
 		minLen := one.Length(v)
@@ -1205,8 +1205,8 @@ func runFrames(w *bufio.Writer, seed uint64, n int, _ []string) {
 	}
 	g.relationalCases()
 	// (iii) split and truncation
-	g.splitCases(n/2 + 40)
-	g.truncCases(n/2 + 40)
+	g.splitCases(n/3 + 30)
+	g.truncCases(n/3 + 30)
 	keys := make([]string, 0, len(g.dist))
 	for k := range g.dist {
 		keys = append(keys, k)
